@@ -98,3 +98,15 @@ Theorem completed_evaluations_agree_whatever_the_fuel : forall lf f g e st v1 s1
   eval lf f e st = Ok v1 s1 -> eval lf g e st = Ok v2 s2 -> v1 = v2 /\ s1 = s2.
 Proof. exact FuelMono.eval_fuel_irrelevant. Qed.
 Print Assumptions completed_evaluations_agree_whatever_the_fuel.
+
+(** * bindings of let vanish with the let; assignment creates no binding (proofs/ResolveLet.v)
+    For every program of the let/set/while/print fragment (ResolveLet.fragE, any nesting depth) and every description
+    sc of the frames on the current chain ("frame j binds exactly the names sc_j"): after a completed evaluation the
+    same description holds again and the context is balanced -- the let frames are gone from the chain, no frame on
+    it gained or lost a name, the current frame and the saved positions are as before. *)
+From WalModel.proofs Require ResolveLet.
+Theorem let_bindings_vanish_and_set_creates_none : forall V lf f sc e st a st',
+  ResolveLet.fragE V e = true -> ResolveLet.Inv V sc st -> eval lf f e st = Ok a st' ->
+  ResolveLet.Inv V sc st' /\ Balanced.R st st'.
+Proof. exact ResolveLet.fragment_keeps_binding_structure. Qed.
+Print Assumptions let_bindings_vanish_and_set_creates_none.
